@@ -2,6 +2,16 @@ NOTES = ("All checks: ./check <ID> --tier quick|thorough, VERIF_SEED respected, 
          "fix: commits in /repo are listed in known_findings.json as fixed entries.")
 NOT_APPLICABLE = {}
 CHECKS = {
+ "C05": {
+  "technique": "Hypothesis property-based testing against an independent reference model of the category semantics (written from the documentation), plus a two-session metamorphic arm on tool-written text",
+  "text": "Per site the reported categories (create/fix/trim) and the value after the run are compared with a ~100 line reference model written from docs/categories.md for every operation, previous value (noisy text or none), observation sequence (loops, shared module-level sites) and approved subset F; unapproved categories must leave the value untouched (update-only runs never change a value). Exploration.",
+  "note": "recording bodies so that observations do not depend on answers; previous texts with positional constructor arguments excluded and counted (known finding F14); `update` itself is about source text and is not predicted by the model",
+ },
+ "C08": {
+  "technique": "Hypothesis property-based testing of run histories (metamorphic: run(F);run(F) must be a fixed point) on the in-process driver and on real pytest session pairs",
+  "text": "Generated programs with noisy previous texts are run twice (three times in the thorough arm) with the same approved set; the second run must leave every file byte-identical, after an all-four run nothing may be reported as create/fix/trim and the rewritten tests pass with inline-snapshot inactive; real session pairs additionally check exit status 0 and an empty report. Exploration.",
+  "note": "generated tests are deterministic; complex numbers whose python repr does not read back with the same repr (negative zero parts) are excluded as a stated precondition",
+ },
  "C02": {
   "technique": "Hypothesis property-based testing: edit-script generated (previous text, new value) pairs, noisy renderer, oracle = re-execution of the rewritten module with inline-snapshot inactive",
   "text": "Generated programs with 1-4 sites whose previous argument is a noisy rendering of an edit-script mutation of the observed value (or missing); one in-process run with create+fix; the rewritten module must pass when re-executed with inline-snapshot inactive and every site argument must satisfy the observed comparisons. Exploration.",
